@@ -79,8 +79,9 @@ pub trait Family: Sync + Send {
     /// per-case wall cap in seconds
     fn case_timeout(&self, tier: Tier) -> u64 {
         match tier {
-            Tier::Quick => 10,
-            Tier::Thorough => 30,
+            // cases take milliseconds; the caps are for a hang, with room for a heavily loaded machine
+            Tier::Quick => 30,
+            Tier::Thorough => 60,
         }
     }
     fn workers(&self) -> usize {
@@ -179,7 +180,18 @@ pub fn worker_main(fam: &dyn Family, tier: Tier, w: usize, k: usize, from: usize
         }
         let _ = writeln!(out, "B {}", idx);
         let _ = out.flush();
-        let rep = fam.run(&case, &mut ctx);
+        let mut rep = fam.run(&case, &mut ctx);
+        // a compiler panic on a program of a family is also a failure of what the family is about:
+        // report it under the family's own property, not only under C04
+        let own = fam.serves()[0];
+        let extra: Vec<Finding> = rep
+            .findings
+            .iter()
+            .filter(|f| f.class.starts_with("compile.panic") && f.property == "C04" && own != "C04")
+            .filter(|f| !rep.findings.iter().any(|g| g.property == own && g.class == f.class && g.site == f.site))
+            .map(|f| Finding { property: own, class: f.class.clone(), site: f.site.clone(), detail: f.detail.clone(), replay: f.replay.clone() })
+            .collect();
+        rep.findings.extend(extra);
         agg.evaluations += if rep.sub_evaluations > 0 { rep.sub_evaluations } else { 1 };
         for k in &rep.more_keys {
             agg.nontrivial.insert(format!("{:016x}", k));
